@@ -1,5 +1,8 @@
 import GaeaVerif.Sexp
 import GaeaVerif.Model.Route
+import GaeaVerif.Model.ShardStart
+import GaeaVerif.Spec.ShardCalendar
+import GaeaVerif.Drv.ShardIO
 /-
   Driver for C01 (and the routing part of C05).
   Request: m (route RULE COLTYPE FORM STMT (meta RANGE GLOBAL FIRST LAST (idxs…)) COND (univ (rank place)…))
@@ -7,6 +10,22 @@ import GaeaVerif.Model.Route
   Output:  (ok i j …) | err
   Oracle:  every universe row value on which the condition may be TRUE must
            have its table among the routed ones.
+
+  Request: m (join RULE COLTYPE (tables (T ALIAS)…) (steps (KW USING ON|-)…) WHERE|- (meta …) (univ (rank place)…))
+           steps in FROM order; KW join|inner|cross|straight|comma|left|leftouter|right|rightouter,
+           USING none|using|usingq; conditions as above with columns
+           (k T) | (ku T) | (amb) | (o T) | (ou) and the atom (eqcol T T')
+  Output:  (ok i j …) | err
+  Oracle:  every combined row of universe values (NULL extensions included)
+           stored in the sub tables number i that may be a row of the joined
+           table (SQL semantics of inner/LEFT/RIGHT joins) with WHERE possibly
+           TRUE must have i among the routed tables.
+
+  Request: m (eqstart CFG ((KEY INDEX)…))     CFG, KEY as in Drv/ShardIO.lean
+  Output:  (r t|f|panic|(err key-panic) …) | cfgerr | cfgpanic | norange
+  Oracle:  EqualStart answers true only for a key that is the first value of
+           table INDEX (range rule) / the first instant of period INDEX
+           (calendar rules; the accepted spellings and timestamps).
 -/
 namespace GaeaVerif.Drv.C01
 open GaeaVerif GaeaVerif.Route
@@ -88,8 +107,204 @@ def oracle (r : Rule) (c : Cond) (univ0 : List (Int × Int)) (out : Sexp) : Stri
   | .list [.atom "not-a-shard-plan"] => "viol sharded-statement-not-planned-as-sharded"
   | _ => "viol unexpected-output"
 
+/-! ### joined tables -/
+
+def parseJCol : Sexp → Option JCol
+  | .list [.atom "k", t] => do pure (.key (← t.asNat?))
+  | .list [.atom "ku", t] => do pure (.key (← t.asNat?))
+  | .list [.atom "amb", _] => some .ambiguous
+  | .list [.atom "o", t] => do pure (.col (← t.asNat?))
+  | .list [.atom "ou"] => some .free
+  | _ => none
+
+partial def parseJCond : Sexp → Option JCond
+  | .list [.atom "and", a, b] => do pure (.and (← parseJCond a) (← parseJCond b))
+  | .list [.atom "or", a, b] => do pure (.or (← parseJCond a) (← parseJCond b))
+  | .list [.atom "par", a] => do pure (.paren (← parseJCond a))
+  | .list [.atom "other", k, _, _] => do pure (.other (← k.asNat?))
+  | .list [.atom "eqcol", _, _] => some (.other 1000)
+  | .list [.atom "cmp", c, .atom side, .atom op, l] => do
+      pure (.cmp (← parseJCol c) (side == "lc") (← parseOp op) (← parseLit l))
+  | .list [.atom "in", c, neg, .list ls] => do
+      pure (.inList (← parseJCol c) (← neg.asBool?) (← ls.mapM parseLit))
+  | .list [.atom "btw", c, neg, lo, hi] => do
+      pure (.between (← parseJCol c) (← neg.asBool?) (← parseLit lo) (← parseLit hi))
+  | _ => none
+
+def parseOptJCond : Sexp → Option (Option JCond)
+  | .atom "-" => some none
+  | e => (parseJCond e).map some
+
+def parseTp : String → Option JoinTp
+  | "join" | "inner" | "cross" | "straight" | "comma" => some .inner
+  | "left" | "leftouter" => some .left
+  | "right" | "rightouter" => some .right
+  | _ => none
+
+def parseStep : Sexp → Option JoinStep
+  | .list [.atom kw, .atom us, on] => do
+      pure { tp := (← parseTp kw), usingQualified := us == "usingq", on := (← parseOptJCond on) }
+  | _ => none
+
+/-- the join nodes outermost first, as `routeJoins` and `inJoin` take them -/
+def parseSteps : Sexp → Option (List JoinStep)
+  | .list (.atom "steps" :: ss) => (ss.mapM parseStep).map List.reverse
+  | _ => none
+
+def mayTrueJ (vals : Nat → Option Int) (c : JCond) : Bool :=
+  evalJ (fun _ => some true) vals c == some true
+
+def mayOn (vals : Nat → Option Int) (j : JoinStep) : Bool :=
+  match j.on with
+  | none => true
+  | some c => mayTrueJ vals c
+
+/-- `inJoin` with "may be TRUE" for the ON conditions -/
+def mayInJoin (vals : Nat → Option Int) : List JoinStep → Bool
+  | [] => (vals 0).isSome
+  | j :: rest =>
+    match j.tp with
+    | .inner => mayInJoin vals rest && (vals (rest.length + 1)).isSome && mayOn vals j
+    | .left => mayInJoin vals rest && ((vals (rest.length + 1)).isNone || mayOn vals j)
+    | .right => (vals (rest.length + 1)).isSome &&
+        ((mayInJoin vals rest && mayOn vals j) || (List.range (rest.length + 1)).all fun t => (vals t).isNone)
+
+/-- all combined rows over `n` tables whose present values come from `cands` -/
+def tuples (cands : List (Option Int)) : Nat → List (List (Option Int))
+  | 0 => [[]]
+  | n + 1 => (tuples cands n).flatMap fun t => cands.map fun c => c :: t
+
+def oracleJoin (r : Rule) (joins : List JoinStep) (wh : Option JCond) (univ0 : List (Int × Int)) (out : Sexp) :
+    String :=
+  match out with
+  | .atom "err" => "ok"
+  | .list (.atom "ok" :: is) =>
+    match is.mapM Sexp.asInt? with
+    | none => "viol unparsable"
+    | some routed =>
+      let nTables := joins.length + 1
+      let bad := r.idxs.any fun i =>
+        if routed.contains i then false else
+        let here := (univ0.filter fun (_, p) => p == i).map fun (x, _) => x
+        let cands : List (Option Int) := none :: (here.take 12).map some
+        (tuples cands nTables).any fun t =>
+          let vals : Nat → Option Int := fun k => (t.getD k none)
+          mayInJoin vals joins && (match wh with | none => true | some c => mayTrueJ vals c)
+      if bad then "viol unsound-join-route" else "ok"
+  | .atom "panic" => "viol planner-panic"
+  | .list [.atom "not-a-shard-plan"] => "viol sharded-statement-not-planned-as-sharded"
+  | _ => "viol unexpected-output"
+
+/-! ### EqualStart -/
+
+open GaeaVerif.ShardPlace GaeaVerif.Drv.ShardIO in
+def fmtStart : Out Bool → String
+  | .ok true => "t"
+  | .ok false => "f"
+  | .err k => s!"(err {errName k})"
+  | .panic => "panic"
+
+def parseKeyIdx : Sexp → Option (ShardPlace.Key × Int)
+  | .list [k, i] => do pure ((← Drv.ShardIO.parseKey k), (← i.asInt?))
+  | _ => none
+
+def modelStart (cfg : Sexp) (kis : List Sexp) : String :=
+  match Drv.ShardIO.parseCfg cfg, kis.mapM parseKeyIdx with
+  | some (cfg, tz), some kis =>
+    match ShardPlace.parseRuleSliceInfos cfg with
+    | .ok rule =>
+      if !rule.shard.isRange then "norange" else
+      "(r" ++ String.join (kis.map fun (k, i) =>
+        " " ++ fmtStart (rule.shard.EqualStart (ShardPlace.civilOfUnix tz) (ShardPlace.clockOfUnix tz) k i)) ++ ")"
+    | .err _ => "cfgerr"
+    | .panic => "cfgpanic"
+  | _, _ => "bad-input"
+
+open GaeaVerif.CalendarSpec in
+/-- is `c` the first instant of its period under the rule? -/
+def isFirstInstant (rule : String) (c : DateTime) : Bool :=
+  c.hour == 0 && c.minute == 0 && c.second == 0 &&
+    (rule == "date_day" || (c.day == 1 && (rule == "date_month" || c.month == 1)))
+
+open GaeaVerif.CalendarSpec in
+/-- the date-time a key denotes, for the keys the property speaks about, and
+    whether it lies strictly inside that second ('…hh:mm:ss.fff' with a
+    non-zero fraction) -/
+def keyDateTime (tz : Int) : ShardPlace.Key → Option (DateTime × Bool)
+  | .int v => (dateTimeOfUnix tz v).map (·, false)
+  | .int64 v => (dateTimeOfUnix tz v).map (·, false)
+  | .uint64 v => if v < 2 ^ 63 then (dateTimeOfUnix tz v).map (·, false) else none
+  | .str s =>
+    if s.length > 20 ∧ s.getD 19 0 = 46 ∧ (s.drop 20).all (fun b => 48 ≤ b ∧ b ≤ 57) then
+      (parseSpelling (s.take 19)).map (·, (s.drop 20).any (· != 48))
+    else (parseSpelling s).map (·, false)
+  | _ => none
+
+/-- What the property demands of one `EqualStart(key, index) = true` answer; `none` = nothing / satisfied. -/
+def judgeStart (cfgS : Sexp) (key : ShardPlace.Key) (idx : Int) : Option String :=
+  match cfgS with
+  | .list [.atom "range", locs, limit] =>
+    match Drv.ShardIO.asInts? locs, limit.asInt? with
+    | some ls, some lim =>
+      let n := (ls.foldl (· + ·) 0).toNat
+      let num : Option Int := match key with
+        | .int v => some v | .int64 v => some v | .uint64 v => some v | _ => none
+      match num with
+      | some v =>
+        if CalendarSpec.rangeTable n lim v != some idx.toNat ∨ idx < 0 then some "equalstart-wrong-table"
+        else if v != idx * lim then some "equalstart-not-first-value" else none
+      | none => none
+    | _, _ => none
+  | .list [.atom rule, tz, _] =>
+    match tz.asInt? with
+    | some tz =>
+      match keyDateTime tz key with
+      | some (c, inside) =>
+        if CalendarSpec.periodNumber rule c != idx then some "equalstart-wrong-table"
+        else if inside || !isFirstInstant rule c then some "equalstart-not-first-instant" else none
+      | none => none
+    | none => none
+  | _ => none
+
+def oracleStart (cfg : Sexp) (kis : List Sexp) (out : Sexp) : String :=
+  match out with
+  | .list (.atom "r" :: outs) =>
+    match kis.mapM parseKeyIdx with
+    | none => "bad-input"
+    | some kis =>
+      if outs.length != kis.length then "viol unexpected-output" else
+      let isDate := match cfg with | .list [.atom "range", _, _] => false | _ => true
+      match (kis.zip outs).findSome? fun ((k, i), o) =>
+          match o with
+          | .atom "t" => judgeStart cfg k i
+          | .atom "panic" => if isDate then some "equalstart-panic" else none
+          | _ => none with
+      | some cls => "viol " ++ cls
+      | none => "ok"
+  | _ => "ok"
+
 def handle (args : List Sexp) : String :=
   match args with
+  | [.atom mode, .list [.atom "join", _, _, _, steps, wh, mt, univ]] =>
+    match parseRule mt, parseSteps steps, parseOptJCond wh, parseUniv univ with
+    | some r, some js, some w, some u =>
+      if mode == "m" then
+        let out := fmtOut (routeJoinStmt r js w)
+        match Sexp.parseLine out with
+        | some [o] => out ++ " | " ++ oracleJoin r js w u o
+        | _ => out
+      else "bad-request"
+    | _, _, _, _ => "bad-input"
+  | [.atom "s", .list [.atom "join", _, _, _, steps, wh, mt, univ], out] =>
+    match parseRule mt, parseSteps steps, parseOptJCond wh, parseUniv univ with
+    | some r, some js, some w, some u => oracleJoin r js w u out
+    | _, _, _, _ => "bad-input"
+  | [.atom "m", .list [.atom "eqstart", cfg, .list kis]] =>
+    let out := modelStart cfg kis
+    match Sexp.parseLine out with
+    | some [o] => out ++ " | " ++ oracleStart cfg kis o
+    | _ => out
+  | [.atom "s", .list [.atom "eqstart", cfg, .list kis], out] => oracleStart cfg kis out
   | [.atom mode, .list [.atom "route", _, _, _, _, mt, cond, univ]] =>
     match parseRule mt, parseCond cond, parseUniv univ with
     | some r, some c, some u =>
